@@ -977,6 +977,7 @@ static void generate(Plan &p, Rng &r) {
 		for (int i = 0; i < nops; i++) {
 			Op o;
 			int x = (int)r.below(100);
+			if (prop == "C24" && x >= 20 && x < 30) x = 40;	// C24: fewer requests, more scripted responses (a request without a script only times out)
 			if (x < 30) { o.code = OP_CREQ; o.a[0] = r.below(NCONN); o.a[1] = r.below(5); o.a[2] = r.below(100000); o.a[3] = r.below(8); o.a[4] = r.below(9); }
 			else if (x < 58) { o.code = OP_SRESP; o.a[0] = r.below(NCONN); o.a[1] = prop == "C27" && r.chance(0.5) ? r.pick(std::vector<int64_t>{0, 1, 2, 19}) : r.below(20); o.a[2] = r.below(100000); o.a[3] = prop == "C27" ? r.below(3) : r.below(8); o.a[4] = r.below(100000); o.a[5] = r.below(1000); }
 			else if (x < 82) { o.code = OP_LOOP; o.a[0] = r.range(1, 30); o.a[1] = r.chance(0.4) ? r.pick(std::vector<int64_t>{1, 100, 1000, 60000}) : 0; }
